@@ -30,6 +30,8 @@ def plan(tier, seed):
     jobs = [{"name": "step%02d" % i, "spec": {"kind": "step", "lo": i * 4096, "hi": (i + 1) * 4096}} for i in range(NSTEP)]
     jobs.append({"name": "short", "spec": {"kind": "short"}})
     jobs.append({"name": "long", "spec": {"kind": "long", "reps": 1 if tier == "quick" else 12}})
+    for i in range(4 if tier == "quick" else 32):
+        jobs.append({"name": "threads%02d" % i, "spec": {"kind": "threads", "threads": (2, 3, 4, 8)[i % 4], "len": (1, 3, 40, 300)[(i // 4) % 4]}})
     n = 20000 if tier == "quick" else 8000000
     k = 4 if tier == "quick" else 16
     for i in range(k):
@@ -38,7 +40,7 @@ def plan(tier, seed):
 
 
 def mandatory_bins(tier):
-    return ["step_pairs", "len0", "len1", "len2", "default_start", "split", "type_bytes", "type_bytearray", "type_memoryview", "type_list", "type_iterator", "type_generator", "catalogue_check_value", "long_input"]
+    return ["step_pairs", "len0", "len1", "len2", "default_start", "split", "type_bytes", "type_bytearray", "type_memoryview", "type_list", "type_iterator", "type_generator", "catalogue_check_value", "long_input", "first_calls_of_the_process_from_concurrent_threads"]
 
 
 def finish(agg, tier):
@@ -88,6 +90,73 @@ def run_shard(spec, ctx):
         if got != 0x6F91:
             ctx.violation("catalogue_check_value", {"got": got, "expected": 0x6F91}, {"kind": "string", "data": b"123456789".hex(), "start": None})
         ctx.sample({"kind": "string", "data": "123456789", "crc": got})
+    elif kind == "threads":
+        # the FIRST checksums of a process computed by several threads at once (each shard is a fresh interpreter): the
+        # threads are made to interleave at every source line of bec2file.py (LINE events + a short sleep), so that any lazily
+        # initialised shared state is built under contention; afterwards the function is re-checked sequentially
+        import sys
+        import threading
+        import time
+        import types
+
+        mon = sys.monitoring
+        TOOL = 5
+        mon.use_tool_id(TOOL, "bvm-crc-yield")
+        fname = ns.bec2file.__file__
+        codes = [v.__code__ for v in vars(ns.bec2file).values() if isinstance(v, types.FunctionType) and v.__code__.co_filename == fname]
+        lines = [0]
+
+        def on_line(code, line):
+            lines[0] += 1
+            if lines[0] < 20000:
+                time.sleep(0.0002)
+
+        mon.register_callback(TOOL, mon.events.LINE, on_line)
+        for c in codes:
+            mon.set_local_events(TOOL, c, mon.events.LINE)
+        nthreads = spec["threads"]
+        rng = ctx.rng
+        datas = [rng.randbytes(spec["len"]) for _ in range(nthreads)]
+        starts = [rng.randrange(65536) for _ in range(nthreads)]
+        results = [None] * nthreads
+        barrier = threading.Barrier(nthreads)
+
+        def worker(i):
+            try:
+                barrier.wait(timeout=30)
+                results[i] = ("ok", f(datas[i], starts[i]))
+            except BaseException as e:  # noqa
+                results[i] = ("exc", repr(e))
+
+        ths = [threading.Thread(target=worker, args=(i,), daemon=True) for i in range(nthreads)]
+        for t in ths:
+            t.start()
+        for t in ths:
+            t.join(120)
+        for c in codes:
+            mon.set_local_events(TOOL, c, 0)
+        mon.register_callback(TOOL, mon.events.LINE, None)
+        mon.free_tool_id(TOOL)
+        ctx.ev(nthreads)
+        ctx.bin("first_calls_of_the_process_from_concurrent_threads")
+        ctx.mon("crc8404B", nthreads)
+        ctx.mon("line_yields_injected", lines[0])
+        ctx.distinct("threads", nthreads, spec["len"], datas, starts)
+        rp = {"kind": "threads", "threads": nthreads, "len": spec["len"]}
+        if any(t.is_alive() for t in ths):
+            ctx.note("thread_still_running_after_120s(inconclusive)")
+        for i, r in enumerate(results):
+            if r is None:
+                continue
+            exp = ref.crc16(datas[i], starts[i])
+            if r[0] == "exc":
+                ctx.violation("concurrent_first_call_raises", {"exc": r[1], "threads": nthreads}, rp)
+            elif r[1] != exp:
+                ctx.violation("string_mismatch:concurrent_first_calls", {"got": r[1], "expected": exp, "threads": nthreads}, rp)
+        bad = [b for b in range(256) if f(bytes((b,)), 0xFFFF) != ref.step(0xFFFF, b)]
+        if bad or f(b"123456789") != 0x6F91:
+            ctx.violation("string_mismatch:after_concurrent_first_calls", {"wrong_single_byte_values": len(bad)}, rp)
+        ctx.sample({"kind": "threads", "threads": nthreads, "line_yields": lines[0]})
     elif kind == "long":
         # long inputs around sizes at which a chunked / word-wise / table implementation could change behaviour, the same
         # object checksummed repeatedly (memoised results), and equal content in different objects
@@ -178,6 +247,8 @@ def replay(rec, ctx):
             ctx.violation("step_mismatch", {"got": got, "expected": exp}, rec)
     elif rec["kind"] == "long":
         run_shard({"kind": "long", "reps": 1}, ctx)
+    elif rec["kind"] == "threads":
+        run_shard({"kind": "threads", "threads": rec["threads"], "len": rec["len"]}, ctx)
     else:
         data = bytes.fromhex(rec["data"])
         start = rec.get("start")
